@@ -79,5 +79,9 @@ if __name__ == '__main__':
         pathlib.Path(args['barrier'] + f'.ready{os.getpid()}').write_text('1')
         while not os.path.exists(args['barrier']) and time.time() - t0 < 30:
             time.sleep(0.005)
+    import os
+    if os.environ.get('VERIF_CPU_AFFINITY'):
+        # this run sees fewer usable CPUs (as under taskset / a cgroup cpuset / on a smaller machine)
+        os.sched_setaffinity(0, {int(c) for c in os.environ['VERIF_CPU_AFFINITY'].split(',')})
     r = run_stage(args)
     print('\nDIGEST ' + json.dumps(r))
